@@ -632,6 +632,75 @@ fn c15_width<C: CellType>(t: &mut Tally, rng: &mut Rng, count: u64) {
     }
 }
 
+/// Polynomials with *known* coefficients: `half` must halve every coefficient exactly (the
+/// optimiser takes `Expr::val(n).half()` as the integer n/2 for trip counts), and the
+/// constructors must agree with coefficient arithmetic done in u128.
+fn c15_known<C: CellType>(t: &mut Tally, rng: &mut Rng, count: u64) {
+    let bits = C::BITS;
+    let m: u64 = if bits == 64 { u64::MAX } else { (1u64 << bits) - 1 };
+    let monos: [&[isize]; 7] = [&[], &[0], &[1], &[0, 0], &[0, 1], &[-1], &[0, 1, 1]];
+    for i in 0..count {
+        let k = rng.range(1, 4) as usize;
+        let mut picked: Vec<usize> = Vec::new();
+        while picked.len() < k {
+            let j = rng.below(monos.len() as u64) as usize;
+            if !picked.contains(&j) {
+                picked.push(j);
+            }
+        }
+        let mut e = Expr::<C>::val(C::ZERO);
+        let mut want_half = Expr::<C>::val(C::ZERO);
+        let mut coefs = Vec::new();
+        for &j in &picked {
+            // even coefficients, biased to the upper half of the range and to the extremes
+            let c = match rng.below(6) {
+                0 => m - 1,
+                1 => m - 1 - 2 * rng.below(60),
+                2 => (1u64 << (bits - 1)) + 2 * rng.below(8),
+                3 => 2 * rng.below(100),
+                4 => 1u64 << (bits - 1),
+                _ => rng.next() & m & !1,
+            } & m & !1;
+            if c == 0 {
+                continue;
+            }
+            let mut mono = Expr::<C>::val(C::ONE);
+            for &v in monos[j] {
+                mono = mono.mul(Expr::var(v));
+            }
+            e = e.add(Expr::val(C::from_u64(c)).mul(&mono));
+            want_half = want_half.add(Expr::val(C::from_u64(c >> 1)).mul(&mono));
+            coefs.push((c, j));
+        }
+        t.inc("known_coefficient_polynomials", 1);
+        t.inc("evaluations", 1);
+        let got = match e.half() {
+            Some(h) => h,
+            None => {
+                t.inc("violated", 1);
+                t.violation(&format!("i{bits}:half-none"), Obj::new().n("bits", bits).s("kind", "expr").s("why", "half: None although every coefficient is even").s("a", &format!("{e:?}")));
+                continue;
+            }
+        };
+        for rho in &assignments::<C>(rng, 4) {
+            if ev(&got, rho) != ev(&want_half, rho) {
+                t.inc("violated", 1);
+                t.violation(
+                    &format!("i{bits}:half-coefficients"),
+                    Obj::new().n("bits", bits).s("kind", "expr").s("why", "half: result is not the coefficient-wise half (the optimiser relies on val(n).half() == n/2)").s("a", &format!("{e:?}")).s("half", &format!("{got:?}")).s("expected", &format!("{want_half:?}")),
+                );
+                break;
+            }
+        }
+        if coefs.len() >= 2 {
+            t.distinct.insert(crate::rng::fnv64(format!("known:{bits}:{coefs:?}").as_bytes()));
+        }
+        if i == 5 && t.samples.len() < 8 {
+            t.sample(Obj::new().n("bits", bits).s("known_polynomial", &format!("{e:?}")).s("half", &format!("{got:?}")).done());
+        }
+    }
+}
+
 pub fn c15(args: &Args) -> i32 {
     let mut t = Tally::new("C15", &args.replay_dir);
     let start = std::time::Instant::now();
@@ -641,6 +710,16 @@ pub fn c15(args: &Args) -> i32 {
     c15_width::<u16>(&mut t, &mut rng, n);
     c15_width::<u32>(&mut t, &mut rng, n);
     c15_width::<u64>(&mut t, &mut rng, n);
+    if cfg!(miri) {
+        // the interpreter is ~10^4 times slower: one polynomial at the two extreme widths
+        c15_known::<u8>(&mut t, &mut rng, 1);
+        c15_known::<u64>(&mut t, &mut rng, 1);
+    } else {
+        c15_known::<u8>(&mut t, &mut rng, n);
+        c15_known::<u16>(&mut t, &mut rng, n);
+        c15_known::<u32>(&mut t, &mut rng, n);
+        c15_known::<u64>(&mut t, &mut rng, n);
+    }
     t.write(&args.out, &[("wall_s".to_string(), format!("{:.2}", start.elapsed().as_secs_f64()))]);
     if t.violations.is_empty() {
         0
